@@ -24,8 +24,8 @@ static const int64_t MAX63 = INT64_MAX;
 struct Req { I128 first, last, suffix; };          // as the reference parser reads it (128-bit: no overflow whatever the digits)
 struct Req64 { int64_t first, end, suffix; };     // the same once known to fit 63 bits; end = last + 1 (exclusive), -1: open ended
 
-static bool isWs(unsigned char c) { return c == ' ' || c == '\t' || c == '\r' || c == '\n'; }   // whitespace around list items (OWS, and CR/LF of a folded line)
-static bool isCSpace(unsigned char c) { return c == ' ' || (c >= 9 && c <= 13); }                // what strtoll() skips
+static bool isCSpace(unsigned char c) { return c == ' ' || (c >= 9 && c <= 13); }   // C isspace(): what strtoll() skips
+static bool isWs(unsigned char c) { return isCSpace(c); }                             // whitespace around list items, as Squid's lists define it
 static bool isDig(unsigned char c) { return c >= '0' && c <= '9'; }
 
 // 1*DIGIT at s[i..e): value (saturating far above 2^63) and the index after the digits; false if no digit
@@ -72,7 +72,6 @@ static bool lenientNumber(const unsigned char *s, unsigned i, I128 &v)
 static bool refLenient(const unsigned char *s, const unsigned b, unsigned e)
 {
     I128 a, l;
-    while (e > b && isCSpace(s[e - 1])) --e;                      // Squid's list splitter also trims VT/FF at the end of an item
     if (e - b < 2) return false;
     if (s[b] == '-') return lenientNumber(s, b + 1, a);
     unsigned d = b; while (d < e && s[d] != '-') ++d;
@@ -98,13 +97,10 @@ static RefHeader reference(const unsigned char *s /* after "bytes=" */, const un
             else if (quoted && s[i] == '\\') { if (i + 1 < len) ++i; }
             else if (!quoted && s[i] == ',') break;
         }
-        unsigned e = i, e2 = i;
+        unsigned e = i;
         while (e > b && isWs(s[e - 1])) --e;
-        while (e2 > b && isCSpace(s[e2 - 1])) --e2;
         Req r;
-        // an item of nothing but VT/FF ends Squid's list iteration (items after it are never looked at): same tolerant class
-        if (e2 == b) h.someLenientOnly = true;
-        else if (refStrict(s, b, e, r)) { if (h.n < MAXSPECS) h.req[h.n] = r; ++h.n; }
+        if (refStrict(s, b, e, r)) { if (h.n < MAXSPECS) h.req[h.n] = r; ++h.n; }
         else if (refLenient(s, b, e)) h.someLenientOnly = true;
         else h.someInvalid = true;
     }
